@@ -334,7 +334,9 @@ def gen_frag_group(rng, g, depth):
             els.append({"k": "union", "gs": [gen_frag_group(rng, g, depth - 1) for _ in range(2)]})
     grp = {"k": "group", "els": els}
     if rng.random() < 0.5:
-        vs = sorted(visible_vars(grp))
+        # only variables every solution of the group binds: a filter on a variable bound in one UNION branch
+        # only is the known finding C15-K3 (a C04 matter) when the group is joined to the right of another
+        vs = sorted(certain_vars(grp))
         if vs:
             grp["els"].append({"k": "filter", "e": gen_frag_expr(rng, g, vs, 0)})
     return grp
@@ -359,7 +361,11 @@ def gen_case(rng, tier, i):
     stream = rng.choices(["rewrite", "init", "prepared", "store", "bgp", "frag", "sel"],
                          [30, 12, 15, 15, 10, 10, 8])[0]
     if stream in ("bgp", "frag", "sel"):
-        return _gen_case(rng, tier, i, stream)
+        while True:
+            try:
+                return _gen_case(rng, tier, i, stream)
+            except (ValueError, IndexError):   # a degenerate draw (e.g. a pattern without variables): draw again
+                continue
     return {"lazy": rng.randrange(1 << 60), "stream": stream}
 
 
@@ -371,7 +377,10 @@ def materialize(case):
     want_nonempty = rng.random() < 0.85
     out = None
     for _ in range(4):
-        out = _gen_case(rng, "quick", 0, case["stream"])
+        try:
+            out = _gen_case(rng, "quick", 0, case["stream"])
+        except (ValueError, IndexError):
+            continue
         if not want_nonempty:
             break
         try:
@@ -380,6 +389,11 @@ def materialize(case):
             break
         if r[0] == "ok" and r[2]:
             break
+    while out is None:
+        try:
+            out = _gen_case(rng, "quick", 0, case["stream"])
+        except (ValueError, IndexError):
+            pass
     return out
 
 
@@ -983,23 +997,22 @@ def run_impl(case):
                     case_keepalive = it  # noqa: F841
                 except Exception:  # noqa: BLE001
                     pass
-            if sched == 2:      # the same prepared query evaluated on two graphs, rows interleaved
+            if sched == 2:
+                # the same prepared object evaluated on two graphs and a second prepared object of the same
+                # text on the first graph, all three consumed row by row in turn
                 try:
-                    i1, i2 = iter(gA.query(p)), iter(gB.query(p))
-                    r1, r2 = [], []
-                    done1 = done2 = False
-                    while not (done1 and done2):
-                        if not done1:
-                            try:
-                                r1.append(next(i1))
-                            except StopIteration:
-                                done1 = True
-                        if not done2:
-                            try:
-                                r2.append(next(i2))
-                            except StopIteration:
-                                done2 = True
-                    for nm, rr, gg in (("A", r1, gA), ("B", r2, gB)):
+                    p2 = prepareQuery(text)
+                    its = [iter(gA.query(p)), iter(gB.query(p)), iter(gA.query(p2))]
+                    got_rows = [[], [], []]
+                    live = [True, True, True]
+                    while any(live):
+                        for j in range(3):
+                            if live[j]:
+                                try:
+                                    got_rows[j].append(next(its[j]))
+                                except StopIteration:
+                                    live[j] = False
+                    for nm, rr, gg in (("A", got_rows[0], gA), ("B", got_rows[1], gB), ("A", got_rows[2], gA)):
                         res = gg.query(p)   # only for the column names
                         got = ("ok", tuple(sorted("?" + str(v) for v in res.vars)),
                                tuple(sorted(tuple(sorted(("?" + str(k), v.n3()) for k, v in row.asdict().items()
@@ -1544,6 +1557,70 @@ def _m_maybe_bound_filter(case, result):
             and _maybe_bound_expr_hazard(case["q"]["where"]))
 
 
-MATCHERS = {"maybe_bound_filter": _m_maybe_bound_filter, "zero_path_nonnode": _m_zero_path_nonnode, "init_nested_expr": _m_init_nested_expr,
+def _optional_hazard(group, v, depth=0):
+    """an OPTIONAL whose group mentions v while the part of its own group before it does not surely bind v
+    (only nested groups count: at the top level the outermost BGP binds v)"""
+    seen = {"k": "group", "els": []}
+    for e in group["els"]:
+        k = e["k"]
+        if k == "optional" and depth > 0 and v in all_vars(e["g"]) and v not in certain_vars(seen):
+            return True
+        subs = [e["g"]] if k in ("grp", "optional", "minus", "graph") else (e["gs"] if k == "union" else [])
+        for g in subs:
+            if _optional_hazard(g, v, depth + 1):
+                return True
+        seen["els"].append(e)
+    return False
+
+
+def _m_init_nested_optional(case, result):
+    """C15-K4: the initBindings variable occurs in the OPTIONAL part of a nested group whose mandatory part does
+    not bind it: evalLeftJoin's "no match even without prior bindings" test re-seeds the initBindings
+    (QueryContext.clone), so an unmatched row survives that a VALUES row would remove."""
+    case = materialize(case)
+    return (case["stream"] == "init" and _tags(result) == {"init"} and bool(case.get("init"))
+            and _optional_hazard(case["q"]["where"], case["init"][0]))
+
+
+def _matches_in_empty_graph(group):
+    """can the group have a solution over an empty graph? (zero-length path, or nothing but VALUES/BIND/FILTER)"""
+    if has_kind(group, {"*", "?"}):
+        return True
+    return all(e["k"] in ("values", "bind", "filter") for e in group["els"])
+
+
+def _graph_var_hazard(node, whole):
+    if isinstance(node, dict):
+        if node.get("k") == "graph" and is_var(node["t"]) and _matches_in_empty_graph(node["g"]):
+            rest = json_without(whole, node)
+            if node["t"] in all_vars(rest):
+                return True
+        return any(_graph_var_hazard(v, whole) for v in node.values())
+    if isinstance(node, list):
+        return any(_graph_var_hazard(v, whole) for v in node)
+    return False
+
+
+def json_without(node, drop):
+    if node is drop:
+        return None
+    if isinstance(node, dict):
+        return {k: json_without(v, drop) for k, v in node.items()}
+    if isinstance(node, list):
+        return [json_without(v, drop) for v in node]
+    return node
+
+
+def _m_graph_var_nongraph(case, result):
+    """C15-K5: GRAPH ?g { P } where ?g is bound first (operand order) to an IRI that names no graph of the
+    dataset: rdflib evaluates P over an empty graph instead of giving no solution, which shows when P matches
+    in an empty graph (zero-length path with a constant end, VALUES/BIND only)."""
+    case = materialize(case)
+    return (case["stream"] == "rewrite" and all(t.startswith("rewrite-") for t in _tags(result))
+            and _graph_var_hazard(case["q"], case["q"]))
+
+
+MATCHERS = {"init_nested_optional": _m_init_nested_optional, "graph_var_nongraph": _m_graph_var_nongraph,
+            "maybe_bound_filter": _m_maybe_bound_filter, "zero_path_nonnode": _m_zero_path_nonnode, "init_nested_expr": _m_init_nested_expr,
             # matchers of repaired defects (their witnesses must pass; kept for documentation)
             "fixed": lambda case, result: False}
